@@ -792,6 +792,11 @@ def _cancel_mul(expr, registry):
             continue
         u1 = _create_unit_from_factor(pair[0], registry)
         u2 = _create_unit_from_factor(pair[1], registry)
+        if u1.expr != pair[0] or u2.expr != pair[1]:
+            # Unit.__pow__ moved the exponent (denominator beyond its rational
+            # approximation): the rebuilt unit does not stand for the factor
+            uncancelable_pairs.add(pair)
+            continue
         prod = u1 * u2
         if prod.dimensions == 1:
             expr = expr / pair[0]
